@@ -34,13 +34,14 @@ theorem translated_open_branches_eq_model (E : Env) (s : GenF.FS) :
   obtain ⟨fo, fe, fi, pid, r, o0, o1, e0, e1, i0, i1, en, t, st, ca, fk, fr, er⟩ := s
   refine ⟨?_, ?_, ?_⟩
   · by_cases h1 : o1 = 0 <;> by_cases h2 : e1 = 0 <;> by_cases h3 : i0 = 0 <;>
-      simp [GenF.openParent, GenF.openParent_b3, GenF.openParent_b2, GenF.openParent_b1, closeIf, fdClose, h1, h2, h3]
+      simp [closeIf, fdClose, h1, h2, h3] <;>
+      (funext x; simp only [close]; repeat' split) <;> first | rfl | (simp_all; done) | omega
   · by_cases h1 : o1 = 0 <;> by_cases h2 : e1 = 0 <;> by_cases h3 : i0 = 0 <;>
     by_cases h4 : o0 = 0 <;> by_cases h5 : e0 = 0 <;> by_cases h6 : i1 = 0 <;>
-      simp [GenF.openChild, GenF.openChild_b5, GenF.openChild_b4, GenF.openChild_b3, GenF.openChild_b2, GenF.openChild_b1, closeIf,
-        dupCloseIf, fdClose, fdDup2, STDOUT_FILENO, STDERR_FILENO, STDIN_FILENO, h1, h2, h3, h4, h5, h6]
+      simp [closeIf, dupCloseIf, fdClose, fdDup2, STDOUT_FILENO, STDERR_FILENO, STDIN_FILENO, h1, h2, h3, h4, h5, h6]
   · by_cases h4 : o0 = 0 <;> by_cases h5 : e0 = 0 <;> by_cases h3 : i0 = 0 <;>
-      simp [GenF.openError, GenF.openError_b3, GenF.openError_b2, GenF.openError_b1, closeBothIf, fdClose, h3, h4, h5]
+      simp [closeBothIf, fdClose, h3, h4, h5] <;>
+      (funext x; simp only [close]; repeat' split) <;> first | rfl | (simp_all; done) | omega
 
 /-- composed with the model's `createPipes`: on the state the three successful `pipe()` calls leave (table and arrays =
     `createPipes streams f t`), the translated parent branch yields `(openFds streams f t).parent` and its members, the translated
@@ -109,7 +110,6 @@ theorem translated_open_pipes_eq_model (E : Env) (s : GenF.FS) (hc : s.calls = 0
   generalize Kernel.bit st 4 = B4
   by_cases q1 : fk = 1 <;> by_cases q2 : fk = 2 <;> by_cases q3 : fk = 3 <;> cases B1 <;> cases B2 <;> cases B4 <;>
   by_cases z1 : fr.outR = 0 <;> by_cases z2 : fr.errR = 0 <;> by_cases z3 : fr.inR = 0 <;>
-    simp [c1, c2, c3, q1, q2, q3, z1, z2, z3, bind, Except.bind, tryPipe, errorPath, closeBothIf, GenF.openError, GenF.openError_b3, GenF.openError_b2, GenF.openError_b1,
-      fdClose] <;> (try omega)
+    simp [c1, c2, c3, q1, q2, q3, z1, z2, z3, bind, Except.bind, tryPipe, errorPath, closeBothIf, fdClose] <;> (try omega)
 
 end Nstd.Args.Tie
